@@ -242,7 +242,14 @@ def r5_history(idx, r):
         loop = blk
         while not isinstance(loop, ast.For):
             loop = par[loop]
-        okz = norm(loop.iter) == "zip(layoutIndexInData, serialNumsForType)" and norm(a1[0].args[0]) == norm(loop.target.elts[0]) and norm(blk.test) == "d is not None"
+        def _matched(t, pol):  # the condition says `d is not None` (the object of this row was asked for), however it is written
+            while isinstance(t, ast.UnaryOp) and isinstance(t.op, ast.Not):
+                t, pol = t.operand, not pol
+            if not (isinstance(t, ast.Compare) and len(t.ops) == 1 and isinstance(t.ops[0], (ast.Is, ast.IsNot)) and {norm(t.left), norm(t.comparators[0])} == {"d", "None"}):
+                return False
+            return pol == isinstance(t.ops[0], ast.IsNot)
+        from ..flow import path_conditions as _pc
+        okz = norm(loop.iter) == "zip(layoutIndexInData, serialNumsForType)" and norm(a1[0].args[0]) == norm(loop.target.elts[0]) and any(_matched(t, p_) for t, p_ in _pc(f.node, a1[0]))
         r.require(okz, "index-from-layout", f, node=loop, msg="the data index of a matched object is the layout's indexInData of that row")
     # neither list is re-ordered afterwards without the other
     bad = []
